@@ -22,20 +22,35 @@
 (* adder waiting for room with the mutex held, Stop.                       *)
 (***************************************************************************)
 EXTENDS Integers, FiniteSets, TLC
-CONSTANTS Cap,        \* capacity of the buffered channel (1000 in the code)
-          Adders,     \* goroutines that call sendMessage (read loop handler, handshake, ping thread)
-          MaxAdds,    \* bound on Add calls per adder
-          Order       \* "conn" : close the connection, then the channel (the code); "chan" : the reverse
+CONSTANTS
+    \* @type: Int;
+    Cap,        \* capacity of the buffered channel (1000 in the code)
+    \* @type: Set(Str);
+    Adders,     \* goroutines that call sendMessage (read loop handler, handshake, ping thread)
+    \* @type: Int;
+    MaxAdds,    \* bound on Add calls per adder
+    \* @type: Str;
+    Order       \* "conn" : close the connection, then the channel (the code); "chan" : the reverse
 
-VARIABLES len,        \* messages in the buffered channel
-          open,       \* MessageChannel.open
-          chClosed,   \* close(c.Channel) done
-          mutex,      \* holder of MessageChannel.lock: an adder, "stop", or "none"
-          apc,        \* adder -> "idle" | "locked" (holds the mutex, waiting for room) | "done"
-          adds,       \* adder -> number of Add calls so far
-          spc,        \* sender: "recv" | "write" | "drain" | "done"
-          conn,       \* "up" | "closed"
-          stpc        \* stopper: "idle" | "first" | "second" | "lockwait" | "done"
+VARIABLES
+    \* @type: Int;
+    len,        \* messages in the buffered channel
+    \* @type: Bool;
+    open,       \* MessageChannel.open
+    \* @type: Bool;
+    chClosed,   \* close(c.Channel) done
+    \* @type: Str;
+    mutex,      \* holder of MessageChannel.lock: an adder or "none"
+    \* @type: Str -> Str;
+    apc,        \* adder -> "idle" | "locked" (holds the mutex, waiting for room)
+    \* @type: Str -> Int;
+    adds,       \* adder -> number of Add calls so far
+    \* @type: Str;
+    spc,        \* sender: "recv" | "write" | "drain" | "done"
+    \* @type: Str;
+    conn,       \* "up" | "closed"
+    \* @type: Str;
+    stpc        \* stopper: "idle" | "first" | "second" | "done"
 vars == <<len, open, chClosed, mutex, apc, adds, spc, conn, stpc>>
 
 Init == /\ len = 0 /\ open = TRUE /\ chClosed = FALSE /\ mutex = "none"
@@ -99,4 +114,24 @@ MutexHeld == \A a \in Adders : (apc[a] = "locked") <=> (mutex = a)
 StopCompletes == (stpc = "first") ~> (stpc = "done" /\ conn = "closed" /\ chClosed)
 \* and then nobody stays blocked: every Add returns and the sender goroutine ends (Run can return)
 NobodyLeftBlocked == (stpc = "first") ~> (spc = "done" /\ \A a \in Adders : apc[a] = "idle")
+\* ---- The structural invariants for every capacity (Apalache, thorough tier): IndInv holds initially and is
+\* preserved by every step, with Cap anywhere in 1..1000 (the outgoing queue's 1000 and the request queue's 10
+\* included), three adders and any number of Add calls:
+\*   apalache-mc check --cinit=ConstInit --init=Init   --inv=IndInv --length=0 OutChannel.tla
+\*   apalache-mc check --cinit=ConstInit --init=IndInv --inv=IndInv --length=1 OutChannel.tla
+\* (the liveness properties above are TLC's, on small constants)
+ConstInit == Cap \in 1..1000 /\ Adders = {"read", "handshake", "ping"} /\ MaxAdds \in 0..1000 /\ Order = "conn"
+IndInv == /\ len \in 0..1000 /\ len <= Cap /\ open \in BOOLEAN /\ chClosed \in BOOLEAN
+          /\ mutex \in Adders \cup {"none"}
+          /\ apc \in [Adders -> {"idle", "locked"}]
+          /\ adds \in [Adders -> 0..1000] /\ (\A a \in Adders : adds[a] <= MaxAdds)
+          /\ spc \in {"recv", "write", "drain", "done"}
+          /\ conn \in {"up", "closed"}
+          /\ stpc \in {"idle", "first", "second", "done"}
+          /\ MutexHeld
+          /\ (chClosed <=> ~open)
+          \* the order of the code: the channel is only closed after the connection
+          /\ (Order = "conn" => (chClosed => conn = "closed"))
+          /\ (Order = "conn" => (conn = "closed" <=> stpc \in {"second", "done"}))
+          /\ (Order = "conn" => (chClosed <=> stpc = "done"))
 =============================================================================
